@@ -1,7 +1,7 @@
 (** C14 — property theorems (statements only; proofs in Proofs_C14.v). *)
 From Coq Require Import ZArith List.
 From AwkV Require Import Base Layout.
-From AwkBuilder Require Import Builder Spec GbLemmas Invariant Same Phys PhysSeq Proofs_C14.
+From AwkBuilder Require Import Builder Spec GbLemmas Invariant Same Phys PhysSeq Growth Proofs_C14.
 Import ListNotations.
 Open Scope Z_scope.
 
@@ -16,6 +16,15 @@ Theorem snapshot_stable_values :
   exists later, fst (run_session o ab_init 0 (cs1 ++ cs2)) = fst (run_session o ab_init 0 cs1) ++ later.
 Proof. exact Proofs_C14.snapshot_stable_values. Qed.
 Print Assumptions snapshot_stable_values.
+
+(* the same in the form the correspondence runs it: the from_iter commands followed by a snapshot give no error
+   event and exactly one snapshot, of length |vs|, whose to_list is the specification *)
+Theorem from_iter_session :
+  forall o vs, good_opts o -> forallb no_struct vs = true ->
+  exists c, fst (run_session o ab_init 0 (map SC (encode_all vs) ++ [SSnapshot]))
+            = [EvSnap (length (encode_all vs)) (zlen vs) (Ok c)] /\ to_list c = Ok (unify vs).
+Proof. exact Proofs_C14.from_iter_session. Qed.
+Print Assumptions from_iter_session.
 
 (* physical half: [bufs] = the GrowableBuffers a state holds (a snapshot shares exactly these), [gid] = allocation
    identity, [prun] = a session with the fresh allocations of every command numbered *)
@@ -47,9 +56,10 @@ Theorem ill_nested_errors :
 Proof. exact Proofs_C14.ill_nested_errors. Qed.
 Print Assumptions ill_nested_errors.
 
-Theorem growth_irrelevant_partial :
-  forall o1 o2 vs, good_opts o1 -> good_opts o2 -> forallb no_struct vs = true ->
-  exists b1 b2, run o1 ab_init (encode_all vs) = Ok b1 /\ run o2 ab_init (encode_all vs) = Ok b2 /\
-                observe b1 = observe b2.
-Proof. exact Proofs_C14.growth_irrelevant_partial. Qed.
-Print Assumptions growth_irrelevant_partial.
+(* ALL sessions (well- or ill-nested, records, tuples, unions, clear, snapshots): the observable events do not depend
+   on the initial capacity, the resize policy, or the contents of uninitialised memory *)
+Theorem growth_irrelevant :
+  forall o1 o2, good_opts o1 -> good_opts o2 ->
+  forall cs, fst (run_session o1 ab_init 0 cs) = fst (run_session o2 ab_init 0 cs).
+Proof. exact Growth.growth_irrelevant. Qed.
+Print Assumptions growth_irrelevant.
